@@ -425,30 +425,32 @@ theorem lowerF_sim (F : Func) (hns : noSAL F.body = true) (s : St) (hs : s.stack
   generalize ho : run fns true F.exit f F.body (s.fire F.entry) = o at ok oko
   have hsim := lower_sim hns ho oko
   have hnp := hsim.2
+  have hsimE := RunsL.probes_post F.endBefore hsim.1
   by_cases hex : F.exit = []
   · -- no exit probes: no wrapper
-    have hbody : (lowerF F).body = probes F.entry ++ lowerL [] F.body := by simp [lowerF, hex]
-    have hr : RunsL fns false [] ((lowerF F).body) s o := by
-      rw [hbody]; apply RunsL.probes_pre; have h1 := hsim.1; rw [hex] at h1; exact h1
+    have hbody : (lowerF F).body = probes F.entry ++ (lowerL [] F.body ++ probes F.endBefore) := by simp [lowerF, hex]
+    have hr : RunsL fns false [] ((lowerF F).body) s (o.onNormal (·.fire F.endBefore)) := by
+      rw [hbody]; apply RunsL.probes_pre; have h1 := hsimE; rw [hex] at h1; exact h1
     obtain ⟨g, eg, _⟩ := hr
     refine ⟨g, ?_⟩
     have : (lowerF F).exit = [] := rfl
+    have this2 : (lowerF F).endBefore = [] := rfl
     simp only [Bool.false_eq_true, if_false, this, eg]
     cases o with
-    | normal s1 => simp [finish, lowerF, hex]
+    | normal s1 => simp [finish, lowerF, hex, Out.onNormal]
     | br n pd s1 =>
       simp only [Out.noPend] at hnp; subst hnp
-      cases n <;> simp [finish, lowerF, hex, saPs]
-    | ret s1 => simp [finish, lowerF]
-    | trap s1 => simp [finish]
+      cases n <;> simp [finish, lowerF, hex, saPs, Out.onNormal]
+    | ret s1 => simp [finish, lowerF, Out.onNormal]
+    | trap s1 => simp [finish, Out.onNormal]
     | stuck w => simp at oko
   · have hbody : (lowerF F).body
-        = probes F.entry ++ ([Instr.block [] {} F.nres "block:functype" (lowerL F.exit F.body)] ++ probes F.exit) := by
+        = probes F.entry ++ ([Instr.block [] {} F.nres "block:functype" (lowerL F.exit F.body ++ probes F.endBefore)] ++ probes F.exit) := by
       simp [lowerF, hex]
-    have hblk := Runs1.block (fns := fns) (a := F.nres) (tk := "block:functype") hsim.1
+    have hblk := Runs1.block (fns := fns) (a := F.nres) (tk := "block:functype") hsimE
     have hall := RunsL.blocklike (ps := F.exit) hblk
     have hr : RunsL fns false [] ((lowerF F).body) s
-        (Out.onNormal (fun x => x.fire F.exit) (leaveBlock false {} (s.fire F.entry).stack F.nres o)) := by
+        (Out.onNormal (fun x => x.fire F.exit) (leaveBlock false {} (s.fire F.entry).stack F.nres (o.onNormal (·.fire F.endBefore)))) := by
       rw [hbody]; exact RunsL.probes_pre F.entry hall
     obtain ⟨g, eg, _⟩ := hr
     refine ⟨g, ?_⟩
